@@ -257,4 +257,262 @@ theorem getitem2_wf {a : Arr} {i0 i1 : Index} {v : Val} (hw : WF a) (h : getitem
           | error e => rw [hr] at h; cases h
           | ok ms => rw [hr] at h; cases h; exact selModels_wf hws (resolve_lt hr) (Or.inl hss)
 
+/-! ### assignment, deletion -/
+
+theorem setAt_length (xs : List Tok) (sel : List Nat) (v : Tok) : (setAt xs sel v).length = xs.length := by
+  simp [setAt]
+
+theorem setElement_wf {a a' : Arr} {ix : Index} {v : AtomV} (hw : WF a) (h : setElement a ix v = .ok a') : WF a' := by
+  unfold setElement at h
+  split at h
+  · cases h
+  · split at h
+    · cases h
+    · split at h
+      · cases h
+      · cases h
+        refine ⟨?_, ?_, fun hs => by simpa using hw.single hs, ?_, hw.bonds⟩
+        · intro p hp; simp only [List.mem_map] at hp; obtain ⟨q, hq, rfl⟩ := hp
+          simpa [setAt_length] using hw.cols q hq
+        · intro c hc; simp only [List.mem_map] at hc; obtain ⟨q, hq, rfl⟩ := hc
+          simpa [setAt_length] using hw.blocks q hq
+        · intro b hb; simpa using hw.box b hb
+
+theorem mem_set_imp {α} {l : List α} {m : Nat} {v x : α} (h : x ∈ l.set m v) : x ∈ l ∨ x = v := by
+  rcases List.mem_or_eq_of_mem_set h with h | h
+  · exact Or.inl h
+  · exact Or.inr h
+
+theorem setModel_wf {a a' : Arr} {ix : Index} {v : Val} (hw : WF a) (hv : WFVal v)
+    (h : setModel a ix v = .ok a') : WF a' := by
+  unfold setModel at h
+  split at h
+  · rename_i x
+    have hx : WF x := hv
+    split at h; · cases h
+    split at h; · cases h
+    split at h; · cases h
+    split at h; · cases h
+    rename_i hst _ _ hn
+    split at h
+    · split at h
+      · cases h
+      · split at h
+        · cases h
+        · cases h
+          have hxn : x.n = a.n := by simpa using hn
+          have hx1 : x.coord.length = 1 := hx.single (by simpa using hst)
+          refine ⟨hw.cols, ?_, ?_, ?_, hw.bonds⟩
+          · intro c hc
+            rcases mem_set_imp hc with hc | rfl
+            · exact hw.blocks c hc
+            · rw [List.getD_eq_getElem?_getD, List.getElem?_eq_getElem (by omega)]
+              simpa [hxn] using hx.blocks _ (List.getElem_mem _)
+          · intro hs; simpa [replaceAt] using hw.single hs
+          · intro b hb
+            simp only [Option.map_eq_some_iff] at hb
+            obtain ⟨b0, hb0, rfl⟩ := hb
+            simpa [replaceAt] using hw.box b0 hb0
+    · cases h
+  · cases h
+
+theorem setitem_wf {a a' : Arr} {ix : Index} {v : Val} (hw : WF a) (hv : WFVal v)
+    (h : setitem a ix v = .ok a') : WF a' := by
+  unfold setitem at h
+  split at h
+  · exact setModel_wf hw hv h
+  · split at h
+    · exact setElement_wf hw h
+    · cases h
+
+theorem delitem_wf {a a' : Arr} {ix : Index} (hw : WF a) (h : delitem a ix = .ok a') : WF a' := by
+  unfold delitem at h
+  split at h
+  · split at h
+    · rename_i hst
+      split at h
+      · cases h
+      · rename_i m hm
+        cases h
+        have hlt := (normInt_ok hm).1
+        refine ⟨hw.cols, ?_, ?_, ?_, hw.bonds⟩
+        · intro c hc; exact hw.blocks c (List.mem_of_mem_eraseIdx hc)
+        · intro hs; simp only at hs; rw [hst] at hs; cases hs
+        · intro b hb
+          simp only [Option.map_eq_some_iff] at hb
+          obtain ⟨b0, hb0, rfl⟩ := hb
+          have := hw.box b0 hb0
+          simp [List.length_eraseIdx, this, hlt]
+    · split at h
+      · cases h
+      · rename_i k hk
+        cases h
+        have hlt := (normInt_ok hk).1
+        refine ⟨?_, ?_, ?_, ?_, ?_⟩
+        · intro p hp; simp only [List.mem_map] at hp; obtain ⟨q, hq, rfl⟩ := hp
+          have := hw.cols q hq
+          simp [List.length_eraseIdx, this, hlt]
+        · intro c hc; simp only [List.mem_map] at hc; obtain ⟨q, hq, rfl⟩ := hc
+          have := hw.blocks q hq
+          simp [List.length_eraseIdx, this, hlt]
+        · intro hs; simpa using hw.single hs
+        · intro b hb; simpa using hw.box b hb
+        · intro b hb
+          simp only [Option.map_eq_some_iff] at hb
+          obtain ⟨b0, hb0, rfl⟩ := hb
+          have := select_wf b0 (List.range k ++ List.range' (k + 1) (a.n - 1 - k)) (hw.bonds b0 hb0)
+          have hl : (List.range k ++ List.range' (k + 1) (a.n - 1 - k)).length = a.n - 1 := by
+            simp; omega
+          rw [hl] at this; exact this
+  · cases h
+
+/-! ### annotation edits, setters, constructors of one container -/
+
+theorem insert_all {α} (P : α → Prop) (k : String) (v : α) : ∀ (d : List (String × α)),
+    (∀ p ∈ d, P p.2) → P v → ∀ p ∈ insert k v d, P p.2
+  | [], _, hv, p, hp => by simp [insert] at hp; subst hp; exact hv
+  | (k', v') :: r, hd, hv, p, hp => by
+    unfold insert at hp
+    split at hp
+    · simp only [List.mem_cons] at hp
+      rcases hp with rfl | hp
+      · exact hv
+      · exact hd p (by simp [hp])
+    · simp only [List.mem_cons] at hp
+      rcases hp with rfl | hp
+      · exact hd _ (by simp)
+      · exact insert_all P k v r (fun q hq => hd q (by simp [hq])) hv p hp
+
+theorem foldl_insert_all {α} (P : α → Prop) : ∀ (cols : List (String × α)) (d : List (String × α)),
+    (∀ p ∈ d, P p.2) → (∀ p ∈ cols, P p.2) → ∀ p ∈ cols.foldl (fun d p => insert p.1 p.2 d) d, P p.2
+  | [], d, hd, _ => by simpa using hd
+  | c :: cs, d, hd, hc => by
+    simp only [List.foldl_cons]
+    exact foldl_insert_all P cs _ (insert_all P c.1 c.2 d hd (hc c (by simp))) (fun p hp => hc p (by simp [hp]))
+
+theorem mandCols_len (n : Nat) : ∀ p ∈ mandCols n, p.2.length = n := by
+  intro p hp; simp only [mandCols, List.mem_map] at hp; obtain ⟨k, _, rfl⟩ := hp; simp [zeros]
+
+theorem addAnnotation_wf {a : Arr} (k : String) (hw : WF a) : WF (addAnnotation a k) := by
+  unfold addAnnotation
+  split
+  · exact hw
+  · refine ⟨?_, hw.blocks, hw.single, hw.box, hw.bonds⟩
+    intro p hp
+    simp only [List.mem_append, List.mem_singleton] at hp
+    rcases hp with hp | rfl
+    · exact hw.cols p hp
+    · simp [zeros]
+
+theorem setAnnotation_wf {a a' : Arr} {k : String} {c : List Tok} (hw : WF a)
+    (h : setAnnotation a k c = .ok a') : WF a' := by
+  unfold setAnnotation at h
+  split at h
+  · cases h
+  · rename_i hc
+    cases h
+    refine ⟨?_, hw.blocks, hw.single, hw.box, hw.bonds⟩
+    exact insert_all (fun c => c.length = a.n) k c a.annot hw.cols (by simpa using hc)
+
+theorem delAnnotation_wf {a a' : Arr} {k : String} (hw : WF a) (h : delAnnotation a k = .ok a') : WF a' := by
+  unfold delAnnotation at h
+  split at h
+  · cases h
+  · cases h
+    exact ⟨fun p hp => hw.cols p (List.mem_filter.1 hp).1, hw.blocks, hw.single, hw.box, hw.bonds⟩
+
+theorem all_len {coord : List (List Tok)} {n : Nat} (h : coord.all (fun c => c.length == n) = true) :
+    ∀ c ∈ coord, c.length = n := by
+  intro c hc; have := List.all_eq_true.1 h c hc; simpa using this
+
+theorem setCoord_wf {a a' : Arr} {coord : List (List Tok)} (hw : WF a) (h : setCoord a coord = .ok a') : WF a' := by
+  unfold setCoord at h
+  split at h; · cases h
+  split at h; · cases h
+  split at h; · cases h
+  rename_i h1 h2 h3
+  cases h
+  refine ⟨hw.cols, all_len (by simpa using h2), ?_, ?_, hw.bonds⟩
+  · intro hs
+    simp only at hs ⊢
+    simp only [hs, Bool.not_false, Bool.true_and, bne_iff_ne, ne_eq, Decidable.not_not] at h1
+    exact h1
+  · intro b hb
+    have := hw.box b hb
+    simp only [hb, Option.isSome_some, Bool.true_and, bne_iff_ne, ne_eq, Decidable.not_not] at h3
+    simp only; omega
+
+theorem boxDepth_ok {box : Option (List Tok)} {d : Nat} (h : ¬ boxDepthBad box d = true) :
+    ∀ b, box = some b → b.length = d := by
+  intro b hb; subst hb; simpa [boxDepthBad] using h
+
+theorem setBox_wf {a a' : Arr} {box : Option (List Tok)} (hw : WF a) (h : setBox a box = .ok a') : WF a' := by
+  unfold setBox at h
+  split at h; · cases h
+  rename_i h1
+  cases h
+  exact ⟨hw.cols, hw.blocks, hw.single, boxDepth_ok h1, hw.bonds⟩
+
+theorem bondsValid_wf {n : Nat} {l : List Bond} (h : bondsValid n l = true) : WFBonds n ⟨n, l⟩ := by
+  refine ⟨rfl, ?_⟩
+  intro x hx
+  have := List.all_eq_true.1 h x hx
+  simpa using this
+
+theorem setBonds_wf {a a' : Arr} {bs : Option (List Bond)} (hw : WF a) (h : setBonds a bs = .ok a') : WF a' := by
+  unfold setBonds at h
+  split at h
+  · cases h; exact ⟨hw.cols, hw.blocks, hw.single, hw.box, by intro b hb; cases hb⟩
+  · split at h
+    · rename_i hv
+      cases h
+      refine ⟨hw.cols, hw.blocks, hw.single, hw.box, ?_⟩
+      intro b hb; simp only [Option.some.injEq] at hb; subst hb; exact bondsValid_wf hv
+    · cases h
+
+theorem fromTemplate_wf {a a' : Arr} {coord : List (List Tok)} {box : Option (List Tok)} (hw : WF a)
+    (h : fromTemplate a coord box = .ok a') : WF a' := by
+  unfold fromTemplate at h
+  split at h; · cases h
+  split at h; · cases h
+  rename_i h1 h2
+  cases h
+  exact ⟨hw.cols, all_len (by simpa using h1), fun hs => by cases hs, boxDepth_ok h2, hw.bonds⟩
+
+theorem mkNew_wf {stack : Bool} {n : Nat} {cols coord box bonds} {a : Arr}
+    (h : mkNew stack n cols coord box bonds = .ok a) : WF a := by
+  unfold mkNew at h
+  split at h; · cases h
+  split at h; · cases h
+  split at h; · cases h
+  split at h; · cases h
+  rename_i h1 h2 h3 h4
+  cases h
+  simp only [Bool.or_eq_true, Bool.not_eq_true', not_or, Bool.not_eq_false] at h1
+  refine ⟨?_, all_len (by simpa using h1.2), ?_, boxDepth_ok h3, ?_⟩
+  · exact foldl_insert_all (fun c => c.length = n) cols _ (mandCols_len n) (all_len (by simpa using h1.1))
+  · intro hs
+    simp only at hs ⊢
+    simp only [hs, Bool.not_false, Bool.true_and, bne_iff_ne, ne_eq, Decidable.not_not] at h2
+    exact h2
+  · intro b hb
+    simp only [Option.map_eq_some_iff] at hb
+    obtain ⟨l, rfl, rfl⟩ := hb
+    refine ⟨rfl, ?_⟩
+    intro x hx
+    simp only [bondsBad, Bool.not_eq_true', Bool.not_eq_false] at h4
+    have := List.all_eq_true.1 h4 x hx
+    simpa using this
+
+theorem arrayOf_wf {xs : List AtomV} {a : Arr} (h : arrayOf xs = .ok a) : WF a := by
+  unfold arrayOf at h
+  split at h
+  · cases h
+  · split at h
+    · cases h
+    · cases h
+      refine ⟨?_, by simp, by simp, by simp, by simp⟩
+      refine foldl_insert_all (fun c => c.length = _) _ _ (mandCols_len _) ?_
+      intro p hp; simp only [List.mem_map] at hp; obtain ⟨q, _, rfl⟩ := hp; simp
+
 end BiotiteModel.C01
